@@ -1,3 +1,468 @@
 package main
 
-func runCheck(args []string) int { return 2 }
+// The check driver: `check <ID> --tier quick|thorough`.
+
+import (
+	"encoding/json"
+	"fmt"
+	"os"
+	"path/filepath"
+	"regexp"
+	"sort"
+	"strconv"
+	"strings"
+	"time"
+)
+
+type HSpec struct {
+	Fn        string         `json:"fn"` // "<rel pkg>.<Func>"
+	Quick     map[string]int `json:"quick"`
+	Thorough  map[string]int `json:"thorough"`
+	SkipQuick bool           `json:"skip_quick"`
+	MapOrder  string         `json:"map_order"`
+	PanicIsOK bool           `json:"panic_is_ok"`
+	PoolDrain bool           `json:"pool_drain"`
+	Fuel      int64          `json:"fuel"`
+	Reach     []string       `json:"reach"` // vacuity witnesses that must be reached
+	MergeOff  bool           `json:"merge_off"`
+}
+
+type CSpec struct {
+	ID          string   `json:"id"`
+	Harnesses   []HSpec  `json:"harnesses"`
+	Assumptions []string `json:"assumptions"`
+	Bounds      string   `json:"bounds"`
+	Special     string   `json:"special"` // name of a built-in procedure run in addition (automata, static passes)
+}
+
+type KnownFinding struct {
+	ID       string            `json:"id"`
+	Property string            `json:"property"`
+	Label    string            `json:"label"`
+	Harness  string            `json:"harness,omitempty"`
+	Match    map[string]string `json:"match"` // observed key -> regexp
+	What     string            `json:"what"`
+	Status   string            `json:"status"` // "open" | "fixed"
+	Commit   string            `json:"commit,omitempty"`
+}
+
+func loadSpecs() map[string]*CSpec {
+	data, err := os.ReadFile(filepath.Join(verifDir, "checks.json"))
+	if err != nil {
+		fmt.Println("checks.json:", err)
+		os.Exit(2)
+	}
+	var list []*CSpec
+	if err := json.Unmarshal(data, &list); err != nil {
+		fmt.Println("checks.json:", err)
+		os.Exit(2)
+	}
+	m := map[string]*CSpec{}
+	for _, c := range list {
+		m[c.ID] = c
+	}
+	return m
+}
+
+func loadKnown() []KnownFinding {
+	data, err := os.ReadFile(filepath.Join(verifDir, "known_findings.json"))
+	if err != nil {
+		return nil
+	}
+	var k struct {
+		Findings []KnownFinding `json:"findings"`
+	}
+	json.Unmarshal(data, &k)
+	return k.Findings
+}
+
+func (k *KnownFinding) matches(prop string, v *Violation) bool {
+	if k.Status == "fixed" || k.Property != prop || k.Label != v.Label {
+		return false
+	}
+	if k.Harness != "" && !strings.HasSuffix(v.Harness, k.Harness) {
+		return false
+	}
+	for key, re := range k.Match {
+		val, ok := v.Observe[key]
+		if !ok {
+			return false
+		}
+		m, err := regexp.MatchString(re, val)
+		if err != nil || !m {
+			return false
+		}
+	}
+	return true
+}
+
+type harnessEvidence struct {
+	Harness    string            `json:"harness"`
+	Params     map[string]int    `json:"params"`
+	Paths      int               `json:"paths"`
+	Outcomes   map[string]int    `json:"outcomes"`
+	Asserts    int               `json:"assertions_discharged"`
+	Queries    int               `json:"solver_queries"`
+	SolverS    float64           `json:"solver_s"`
+	Instrs     int64             `json:"ssa_instructions_executed"`
+	WallS      float64           `json:"wall_s"`
+	Reached    map[string]int    `json:"vacuity_witnesses"`
+	Inconcl    map[string]int    `json:"inconclusive,omitempty"`
+	Truncated  bool              `json:"truncated,omitempty"`
+	Violations int               `json:"violations"`
+}
+
+func viaKey(v *Violation) string {
+	var ks []string
+	for k, s := range v.Observe {
+		ks = append(ks, k+"="+s)
+	}
+	sort.Strings(ks)
+	return v.Harness + "|" + v.Label + "|" + strings.Join(ks, ";")
+}
+
+func runCheck(args []string) int {
+	id := args[0]
+	tier := envOr("VERIF_TIER", "quick")
+	for i := 1; i < len(args); i++ {
+		if args[i] == "--tier" && i+1 < len(args) {
+			tier = args[i+1]
+		}
+	}
+	seed, _ := strconv.Atoi(envOr("VERIF_SEED", "0"))
+	specs := loadSpecs()
+	spec, ok := specs[id]
+	if !ok {
+		fmt.Println("unknown check", id)
+		return 2
+	}
+	t0 := time.Now()
+	env, err := LoadEnv()
+	if err != nil {
+		// A tree that does not build is not a property violation; report and fail closed without VIOLATION.
+		fmt.Println("INCONCLUSIVE load failed:", err)
+		writeEvidence(id, tier, seed, nil, nil, nil, []string{"load failed: " + err.Error()}, spec, time.Since(t0), 0, 0, nil, env)
+		return 0
+	}
+	nb := newNativeBuilder()
+	defer nb.Close()
+	known := loadKnown()
+
+	var hev []harnessEvidence
+	var allViol []Violation
+	var inconcl []string
+	var samples []interface{}
+	fnHits := map[string]int{}
+	validated := 0
+	type passCase struct {
+		c   ReplayCase
+		obs map[string]string
+	}
+	var passCases []passCase
+
+	for _, h := range spec.Harnesses {
+		params := h.Quick
+		if tier == "thorough" {
+			params = map[string]int{}
+			for k, v := range h.Quick {
+				params[k] = v
+			}
+			for k, v := range h.Thorough {
+				params[k] = v
+			}
+		} else if h.SkipQuick {
+			continue
+		}
+		if params == nil {
+			params = map[string]int{}
+		}
+		params["seed"] = seed
+		r := &Run{Env: env, Harness: modPath + "/" + h.Fn, Params: params, MapOrder: h.MapOrder, PanicIsOK: h.PanicIsOK,
+			PoolDrain: h.PoolDrain, Fuel: h.Fuel, MergeOff: h.MergeOff, Quiet: false}
+		if strings.HasPrefix(h.Fn, ".") {
+			r.Harness = modPath + h.Fn
+		}
+		if w, err := strconv.Atoi(os.Getenv("VERIF_WORKERS")); err == nil && w > 0 {
+			r.Workers = w
+		}
+		r.Explore()
+		fmt.Fprintln(os.Stderr, r.Summary())
+		he := harnessEvidence{Harness: h.Fn, Params: params, Paths: r.Paths, Outcomes: r.Outcomes, Asserts: r.Asserts,
+			Queries: r.Queries, SolverS: r.SolverDur.Seconds(), Instrs: r.Instrs, WallS: r.Wall.Seconds(), Reached: r.Reached,
+			Inconcl: r.Inconcl, Truncated: r.Truncated, Violations: len(r.Violations)}
+		hev = append(hev, he)
+		for k, n := range r.Inconcl {
+			inconcl = append(inconcl, fmt.Sprintf("%s: %s (%d paths)", h.Fn, k, n))
+		}
+		if r.Truncated {
+			inconcl = append(inconcl, h.Fn+": exploration truncated by path/time limit")
+		}
+		for _, w := range h.Reach {
+			if r.Reached[w] == 0 {
+				inconcl = append(inconcl, h.Fn+": vacuity witness not reached: "+w)
+			}
+		}
+		for k, n := range r.FnHits {
+			fnHits[k] += n
+		}
+		allViol = append(allViol, r.Violations...)
+		for i, s := range r.Samples {
+			if len(samples) < 12 {
+				samples = append(samples, map[string]interface{}{"harness": h.Fn, "inputs": renderInputs(s), "observed": r.SampleObs[i]})
+			}
+		}
+		for i, m := range r.PassModels {
+			if i >= 24 {
+				break
+			}
+			passCases = append(passCases, passCase{ReplayCase{Harness: r.Harness, Label: "", Inputs: m, Params: params}, r.PassObs[i]})
+		}
+	}
+
+	// ---- native replay of violations
+	byKey := map[string]*Violation{}
+	var order []string
+	perLabel := map[string]int{}
+	for i := range allViol {
+		v := &allViol[i]
+		k := viaKey(v)
+		if _, ok := byKey[k]; ok {
+			continue
+		}
+		if perLabel[v.Harness+"|"+v.Label] >= 40 {
+			continue
+		}
+		perLabel[v.Harness+"|"+v.Label]++
+		byKey[k] = v
+		order = append(order, k)
+	}
+	byPkg := map[string][]string{}
+	for _, k := range order {
+		p := pkgOfHarness(byKey[k].Harness)
+		byPkg[p] = append(byPkg[p], k)
+	}
+	confirmed := map[string]bool{}
+	for _, ks := range byPkg {
+		var cases []ReplayCase
+		for _, k := range ks {
+			v := byKey[k]
+			cases = append(cases, ReplayCase{Harness: v.Harness, Label: v.Label, Inputs: v.Inputs, Params: v.Params})
+		}
+		res, err := nb.Replay(cases)
+		if err != nil {
+			inconcl = append(inconcl, "native replay failed: "+err.Error())
+			continue
+		}
+		for i, k := range ks {
+			v := byKey[k]
+			rr := res[i]
+			ok := false
+			for _, f := range rr.Failed {
+				if f == v.Label {
+					ok = true
+				}
+			}
+			if v.Label == "uncaught-panic" && rr.Panic != "" {
+				ok = true
+			}
+			if ok {
+				confirmed[k] = true
+				validated++
+				// prefer the native observations for fingerprinting
+				if len(rr.Observed) > 0 {
+					v.Observe = rr.Observed
+				}
+				if rr.Panic != "" {
+					v.Detail = rr.Panic
+				}
+			} else {
+				inconcl = append(inconcl, fmt.Sprintf("counterexample not reproduced natively: %s %s inputs=%s native=%+v", v.Harness, v.Label, renderInputs(v.Inputs), rr))
+			}
+		}
+	}
+
+	// ---- cross-replay of passing paths
+	pcByPkg := map[string][]passCase{}
+	for _, pc := range passCases {
+		p := pkgOfHarness(pc.c.Harness)
+		pcByPkg[p] = append(pcByPkg[p], pc)
+	}
+	for _, pcs := range pcByPkg {
+		var cases []ReplayCase
+		for _, pc := range pcs {
+			cases = append(cases, pc.c)
+		}
+		res, err := nb.Replay(cases)
+		if err != nil {
+			inconcl = append(inconcl, "native cross-replay failed: "+err.Error())
+			continue
+		}
+		for i, rr := range res {
+			bad := ""
+			switch {
+			case len(rr.Failed) > 0:
+				bad = "assertion fails natively on a path the engine passed: " + strings.Join(rr.Failed, ",")
+			case rr.Panic != "":
+				bad = "native panic on a path the engine passed: " + rr.Panic
+			case rr.Assumes > 0:
+				bad = "assumption violated natively"
+			case rr.Underrun:
+				bad = "native run consumed more inputs than the engine created"
+			default:
+				for k, ev := range pcs[i].obs {
+					if nv, ok := rr.Observed[k]; ok && nv != ev && ev != "<opaque>" {
+						bad = fmt.Sprintf("observation %s differs: engine %s native %s", k, ev, nv)
+					}
+				}
+			}
+			if bad != "" {
+				inconcl = append(inconcl, fmt.Sprintf("cross-replay mismatch (%s inputs=%s): %s", cases[i].Harness, renderInputs(cases[i].Inputs), bad))
+			} else {
+				validated++
+			}
+		}
+	}
+
+	// ---- classify
+	exit := 0
+	knownSeen := map[string]bool{}
+	nviol := 0
+	replayRoot := filepath.Join(verifDir, "evidence", "replays")
+	for _, k := range order {
+		if !confirmed[k] {
+			continue
+		}
+		v := byKey[k]
+		matched := false
+		for i := range known {
+			if known[i].matches(id, v) {
+				matched = true
+				if !knownSeen[known[i].ID] {
+					knownSeen[known[i].ID] = true
+					fmt.Printf("KNOWN-FINDING: property=%s %s [%s] e.g. %s\n", id, known[i].What, known[i].ID, obsString(v))
+				}
+				break
+			}
+		}
+		if matched {
+			continue
+		}
+		nviol++
+		if nviol > 10 {
+			continue
+		}
+		dir := filepath.Join(replayRoot, fmt.Sprintf("%s-%s", id, shortHash(k)))
+		os.MkdirAll(dir, 0o755)
+		rc := []ReplayCase{{Harness: v.Harness, Label: v.Label, Inputs: v.Inputs, Params: v.Params}}
+		js, _ := json.MarshalIndent(rc, "", " ")
+		os.WriteFile(filepath.Join(dir, "replay.json"), js, 0o644)
+		info := fmt.Sprintf("property: %s\nharness: %s\nassertion: %s\ninputs: %s\nobserved: %s\ndetail: %s\n\nreplay: cd /verif && bin/check replay %s\n",
+			id, v.Harness, v.Label, renderInputs(v.Inputs), obsString(v), v.Detail, filepath.Join(dir, "replay.json"))
+		os.WriteFile(filepath.Join(dir, "README.txt"), []byte(info), 0o644)
+		fmt.Printf("VIOLATION property=%s replay=%s\n", id, dir)
+		fmt.Printf("  %s %s inputs=%s %s\n", v.Harness[strings.LastIndex(v.Harness, "/")+1:], v.Label, renderInputs(v.Inputs), obsString(v))
+		exit = 1
+	}
+	sort.Strings(inconcl)
+	for i, s := range inconcl {
+		if i < 20 {
+			fmt.Println("INCONCLUSIVE", s)
+		}
+	}
+	writeEvidence(id, tier, seed, hev, samples, fnHits, inconcl, spec, time.Since(t0), validated, nviol, knownSeen, env)
+	fmt.Fprintf(os.Stderr, "check %s tier=%s: %d violation(s), %d known finding(s), %d inconclusive note(s), %.1fs\n", id, tier, nviol, len(knownSeen), len(inconcl), time.Since(t0).Seconds())
+	return exit
+}
+
+func obsString(v *Violation) string {
+	var ks []string
+	for k, s := range v.Observe {
+		ks = append(ks, k+"="+s)
+	}
+	sort.Strings(ks)
+	return strings.Join(ks, " ")
+}
+
+func shortHash(s string) string {
+	h := uint64(1469598103934665603)
+	for i := 0; i < len(s); i++ {
+		h ^= uint64(s[i])
+		h *= 1099511628211
+	}
+	return fmt.Sprintf("%012x", h&0xffffffffffff)
+}
+
+func writeEvidence(id, tier string, seed int, hev []harnessEvidence, samples []interface{}, fnHits map[string]int, inconcl []string,
+	spec *CSpec, wall time.Duration, validated, nviol int, knownSeen map[string]bool, env *Env) {
+	states, trans, queries, asserts := 0, 0, 0, 0
+	var solverS float64
+	reach := map[string]int{}
+	for _, h := range hev {
+		states += h.Paths
+		trans += h.Queries
+		queries += h.Queries
+		asserts += h.Asserts
+		solverS += h.SolverS
+		for k, n := range h.Reached {
+			reach[k] += n
+		}
+	}
+	if trans == 0 {
+		trans = states
+	}
+	var fns []string
+	for k := range fnHits {
+		if strings.Contains(k, modPath) && !strings.Contains(k, "zzverif") && !strings.Contains(k, ".ZZ") && !strings.Contains(k, ".zz") {
+			fns = append(fns, strings.ReplaceAll(k, modPath+"/", ""))
+		}
+	}
+	sort.Strings(fns)
+	if len(samples) == 0 {
+		samples = []interface{}{"(no passing sample)"}
+	}
+	var kf []string
+	for k := range knownSeen {
+		kf = append(kf, k)
+	}
+	sort.Strings(kf)
+	cov := map[string]interface{}{
+		"states":                        max1(states),
+		"transitions":                   max1(trans),
+		"traces_validated_against_impl": validated,
+		"samples":                       samples,
+		"exhaustive":                    len(inconcl) == 0,
+		"explanation":                   "states = symbolic paths of the real SSA explored to completion (each stands for every input value that follows it); transitions = SMT queries deciding branches and assertions; traces_validated = solver models replayed through the natively compiled harness",
+		"harnesses":                     hev,
+		"functions_encoded":             fns,
+		"functions_encoded_count":       len(fns),
+		"assertions_discharged":         asserts,
+		"solver_queries":                queries,
+		"solver_s":                      solverS,
+		"vacuity_witnesses":             reach,
+		"inconclusive":                  inconcl,
+		"holds":                         nviol == 0 && len(inconcl) == 0,
+		"known_findings_seen":           kf,
+		"bounds":                        spec.Bounds,
+		"solver":                        "z3 4.8.12 over a pipe (one process per worker), no set-logic",
+	}
+	ev := map[string]interface{}{
+		"property_id": id,
+		"tier":        tier,
+		"seed":        seed,
+		"level":       "model_checking",
+		"coverage":    cov,
+		"assumptions": spec.Assumptions,
+		"wall_s":      wall.Seconds(),
+		"violations":  nviol,
+	}
+	os.MkdirAll(filepath.Join(verifDir, "evidence"), 0o755)
+	js, _ := json.MarshalIndent(ev, "", " ")
+	os.WriteFile(filepath.Join(verifDir, "evidence", id+".json"), js, 0o644)
+}
+
+func max1(n int) int {
+	if n < 1 {
+		return 1
+	}
+	return n
+}
